@@ -27,6 +27,10 @@ CHECKS = {
  'C07': dict(level=MC, tech='TLA+ zone-table contract (TZ.tla: OffAt, LocalToUTC as the unique solution of u + OffAt(u) = l) model-checked for inverse/gap/overlap behaviour; trace validation of echs_instant_utc/loc/echs_tzob_offs against tables read by an independent TZif reader',
    text='E1: TLC checks on a synthetic zone with a gap and an overlap that LocalToUTC inverts UTCToLocal on unambiguous times, gap times have no and overlap times two solutions. E2: for every zone (quick: 50 incl. 30/45-minute, southern, Jan/Feb-transition zones; thorough: all ~430 installed TZif files) the real conversions are recorded on both sides (+-1 s/h/d) of every transition 1902-2037, on the 1st/15th of each month of 14 years and at seeded random instants, in both directions, and judged by TLC against the zone table that gen/tzif.py reads from the same file; ambiguous wall-clock times are skipped by the spec.',
    note='trusted: TLC, the RFC 8536 reader gen/tzif.py, printing-only driver. At most 50 zones per driver process (the code interns 64 zones per process by design). The event-level path (DTSTART;TZID through the rule expander) is covered through C01/C16 drivers, not here.', ref='3/C07'),
+
+ 'C03': dict(level=MC, tech='TLA+ mechanism model of the k-way lookahead merge (Streams.tla MuxNext) model-checked against the merge contract; every transition of the model graph replayed on the real echs_evstrm_vmux and validated',
+   text='E1: TLC explores the I-level model of next_evmux (unprimed sentinel, first-non-nul scan, lt-replace / eq-pop-and-refill, refill on pop, release at exhaustion) for all choices of <= 3 constituents x <= 2 (thorough 3) occurrences x times 1..3 x uids {a,b} and all peek/pop interleavings, with the merge contract (sorted, complete, each occurrence 1..multiplicity times, ends only when all ended, peek pure) as invariant. E3: a path cover of the dumped state graph executes every model transition on the real merge built from parsed VEVENTs; E2: each recorded run is judged by TLC against the contract (violation) and against the deterministic model run (drift). Plus seeded random merges of up to 12 constituents.',
+   note='trusted: TLC, dot-graph path cover (selects behaviours only), printing-only driver. Constituents are RDATE-list events; merges of rule streams are exercised through C01/C02 drivers.', ref='3/C03'),
 }
 NA_REASON = 'check not built yet (construction in progress, see DESIGN.md section 10)'
 hooks = {'guard': 'HROPTATYR_ECHSE_VERIF', 'enable': 'no hooks in /repo: checks compile /repo/src as it is (harness/build.sh) and observe through existing seams', 'baseline_off_cmd': 'make -C /repo check', 'source_commits': [], 'add_only': True}
